@@ -29,15 +29,15 @@ func init() {
 		return []string{hx(protocol.VerifDecodeArgAppendNoPlus(nil, unhx(a[0])))}
 	}
 	ops["argsparse"] = func(a []string) []string {
-		var ar protocol.Args
+		ar := usedArgs()
 		ar.ParseBytes(unhx(a[0]))
-		return kvTokens(&ar)
+		return kvTokens(ar)
 	}
 	// argsstd: the parsed list as (key,value) pairs in order, followed by what net/url makes of the
 	// same string ("E" if it rejects it, else the pairs it yields for each key in first-seen order).
 	ops["argsstd"] = func(a []string) []string {
 		b := unhx(a[0])
-		var ar protocol.Args
+		ar := usedArgs()
 		ar.ParseBytes(b)
 		var r []string
 		ar.VisitAll(func(k, v []byte) { r = append(r, hx(k), hx(v)) })
@@ -51,19 +51,28 @@ func init() {
 			ar.Add(string(unhx(a[i])), string(unhx(a[i+1])))
 		}
 		ser := append([]byte(nil), ar.QueryString()...)
-		var back protocol.Args
+		back := usedArgs()
 		back.ParseBytes(ser)
-		return append([]string{hx(ser)}, kvTokens(&back)...)
+		return append([]string{hx(ser)}, kvTokens(back)...)
 	}
 	ops["argsfix"] = func(a []string) []string {
-		var ar protocol.Args
+		ar := usedArgs()
 		ar.ParseBytes(unhx(a[0]))
 		ser := append([]byte(nil), ar.QueryString()...)
-		var back protocol.Args
+		back := usedArgs()
 		back.ParseBytes(ser)
-		return append([]string{hx(ser)}, kvTokens(&back)...)
+		return append([]string{hx(ser)}, kvTokens(back)...)
 	}
 	props["C17"] = genC17
+}
+
+// usedArgs returns an Args object that has been used before and reset, as every pooled request context hands out:
+// its slots still hold keys, values and flags of the earlier parse (a parser that relies on fresh slots shows here).
+func usedArgs() *protocol.Args {
+	ar := &protocol.Args{}
+	ar.ParseBytes([]byte("token=secret&flag&yy=v2&=e&n=&long=" + "0123456789abcdef0123456789abcdef"))
+	ar.Reset()
+	return ar
 }
 
 // stdQuery parses like url.ParseQuery but keeps wire order (ParseQuery returns a map); it uses
